@@ -709,8 +709,10 @@ def _spec_item(x):
         el = x.obj.elem
         if x.obj.items is None and el is not None and num_term(el) is not None:
             rng = getattr(x.obj, "comp_iter", None)
+            if getattr(x.obj, "filtered_by_key", False):
+                return ("advcomp", num_term(el), rng, "bykey")
             return ("advcomp", num_term(el), rng)
-        return ("adv", T.sym("list?"))
+        return ("adv", T.sym("list?%d" % (id(x.obj) % 100000)))  # one symbol per list: two lists nobody followed are two different lists
     if isinstance(x, VUnknown):
         return ("unk", x.tag)
     return ("unk", repr(x))
